@@ -175,9 +175,9 @@ def regressOp (j : Json) : R Json := do
   let data ← fld j "data" >>= stackF
   let sg ← C03.asSigma asFloat (fldD j "sigma" Json.null)
   let cov := fm = .cosineCov ∨ fm = .corrCov
-  -- `pool_rdm(data, method=method)` of util/pooling.py: no sigma_k is forwarded
-  let y := poolRdm .pooling pm (if cov then getV n (SigmaK.none : SigmaK Float) else []) data
   let V := if cov then getV n sg else []
+  -- `pool_rdm(data, method=method, sigma_k=sigma_k)` of util/pooling.py: the same V as the fit
+  let y := poolRdm .pooling pm V data
   match fitRegress fm V ridge normalize A y with
   | .error e => pure (obj [("exc", Json.str (errName e))])
   | .ok t => pure (obj [("theta", ofList ofFloat t), ("pooled", ofList ofOptF y)])
